@@ -1,5 +1,5 @@
 """C08 - no dangling records; in-use entities cannot be removed."""
-from pv import histrun, monitors
+from pv import conc, histrun, monitors
 from pv.gen.history import HistoryGen, Names
 
 META = {
@@ -10,8 +10,11 @@ META = {
             'for dangling references + the DELETE status rule; distinct = '
             '(refusal kind | cascade class) actually exercised with a '
             'reference at stake',
-    'floors': {'refusals_due': 5, 'cascades_nontrivial': 1},
-    'assumptions': ['SQLite backend', 'sequential requests'],
+    'floors': {'refusals_due': 5, 'cascades_nontrivial': 1,
+               'concurrent_states_checked': 100},
+    'assumptions': ['SQLite backend', 'sequential histories + committed-'
+                    'state sequences of transaction-level interleavings of '
+                    'request pairs/triples'],
     'shard_timeout': 3000,
 }
 
@@ -24,13 +27,34 @@ WEIGHTS = {'post_rp': 8, 'put_rp': 2, 'delete_rp': 7,
            'reshaper': 6}
 
 
+CONC = conc.invariant_scenarios(include_tree=True)
+
+
 def plan(tier, seed, scale):
-    return histrun.plan_seeds(tier, seed, scale, 320, 6400,
-                              20 if tier == 'quick' else 100,
-                              extra={'steps': 80 if tier == 'quick' else 100})
+    shards = histrun.plan_seeds(
+        tier, seed, scale, 320, 6400, 20 if tier == 'quick' else 100,
+        extra={'steps': 80 if tier == 'quick' else 100})
+    n = max(1, int(len(CONC) * min(scale, 1)))
+    for sh in conc.plan_scenarios(n, tier, seed, per=max(1, (n + 7) // 8)):
+        sh['conc'] = True
+        shards.append(sh)
+    return shards
+
+
+def conc_shard(spec, res):
+    def per_state(d, wit):
+        for kind, detail in monitors.c08_state(d):
+            res.violation(
+                'C08|%s|concurrent|%s' % (kind, wit['scenario']),
+                'committed state after step %s of [%s]: %s %s' % (
+                    wit['after_step'], wit['transaction_order'], kind,
+                    detail), wit)
+    conc.run_invariants('C08', CONC, spec, res, per_state=per_state)
 
 
 def run_shard(spec, res):
+    if spec.get('conc'):
+        return conc_shard(spec, res)
     svc = histrun.Service()
     try:
         for i in range(spec['first'], spec['first'] + spec['count']):
